@@ -45,6 +45,30 @@ PROPS = {
         'level_text': 'Verus proves on the real sighash_bip143 / hash_inputs / hash_sequence / hash_outputs bodies that the returned preimage is byte-for-byte preimage_forkid(contents, index, flag, subscript, value) as written from the replay-protected sighash specification (field order, little-endian widths, the three midstate hashes zeroed exactly under the specified flag conditions), for every transaction, index, value and the six FORKID flags, and that Err is returned exactly for an out-of-range input index or SINGLE without a matching output.',
         'level_note': TB + ' sha256d is uninterpreted; the signing sentence of the property (signature verifies) is decided under C05.',
     },
+    'C09': {
+        'units': {
+            'tx_wire@alloc': ['Transaction::from_bytes_impl', 'Transaction::from_hex_impl', 'TxIn::read_in', 'TxIn::from_hex_impl', 'TxIn::from_outpoint_bytes_impl', 'TxOut::read_in', 'TxOut::from_hex_impl'],
+            'script_parse@alloc': ['Script::from_bytes', 'Script::from_hex', 'Script::read_pass', 'Script::read_fail', 'Script::read_if_statement', 'Script::if_statement_pass', 'Script::from_coinbase_bytes'],
+            'keys_glue': ['PrivateKey::from_wif_impl', 'PrivateKey::from_hex_impl', 'PrivateKey::from_bytes_impl', 'PublicKey::from_bytes_impl', 'PublicKey::from_bytes', 'PublicKey::from_hex_impl',
+                          'PublicKey::to_decompressed_impl', 'PublicKey::to_compressed_impl', 'P2PKHAddress::from_string_impl', 'P2PKHAddress::from_pubkey_hash_impl'],
+            'bip32_glue': ['ExtendedPrivateKey::from_string_impl', 'ExtendedPublicKey::from_string_impl', 'ExtendedPrivateKey::parse_str_to_idx', 'ExtendedPublicKey::parse_str_to_idx'],
+            'signature_glue': ['Signature::from_der_impl', 'Signature::from_hex_der_impl', 'Signature::from_compact_impl', 'Signature::get_public_key_from_digest', 'SighashSignature::from_bytes_impl', 'TryFrom<u8> for SigHash::try_from'],
+            'ecies_glue': ['ECIESCiphertext::from_bytes_impl'],
+            'aes_glue': ['*'],
+            'ecdsa_glue': ['ECDSA::verify_hashbuf', 'ECDSA::verify_hashbuf_impl', 'ECDSA::sign_digest_with_deterministic_k', 'ECDSA::verify_digest_impl'],
+        },
+        'only_kinds': ['precondition', 'overflow', 'div0', 'shift', 'index', 'unreachable', 'decreases', 'type_invariant'],
+        'only_labels': r'(is_an_error|not_a_panic|^alloc\.|short_input|total_on)',
+        'kani': [
+            {'harness': 'read_varint_cursor_all_prefixes', 'validates': 'compact-size reader returns Ok/Err (never panics) on every buffer of 0..=9 bytes'},
+        ],
+        'assumptions': ['the documented panic conditions of std / byteorder / generic-array / crypto-bigint calls are their shim preconditions (slice ranges, Vec indexing, GenericArray::from_slice exact length, U256::from_*_slice exact length, unwrap on None/Err, integer overflow in debug builds)',
+                        'hex::decode, bs58 decode, k256 / ecdsa / serde parsers are assumed panic-free and to allocate proportionally to their input',
+                        'NOT covered: Script::from_asm_string and ScriptTemplate text parsing (str iterator adapters), the JSON and CBOR entry points (serde_json / ciborium / derive expansions), the four serde hex helpers, native stack depth (deeply nested conditionals recurse in the re-nesting functions and in script_bits_to_bytes) and allocator failure'],
+        'design_ref': 'DESIGN.md section 4 C09',
+        'level_text': 'Verus proves, on the real bodies of the byte / hex / Base58 decoders listed in the evidence, every exec-mode safety obligation with no precondition on the input other than "budget >= input length": no arithmetic overflow or underflow, every index and slice range in bounds, unwrap/expect only on provably Some/Ok, the panic preconditions of every dependency call, termination of every loop and recursion; and, in the allocation-budget variant of the transaction and script decoders, that every length-driven allocation is at most 2 * input length + 128 bytes (an allocation sized by a declared length fails unless the code first compares it with what remains).',
+        'level_note': TB,
+    },
     'C10': {
         'units': {
             'sighash_legacy': ['*'],
@@ -168,7 +192,6 @@ PROPS = {
 }
 
 NOT_CLAIMED = {
-    'C09': 'not reached yet',
     'C14': 'not reached yet',
     'C15': 'not reached yet',
     'C16': 'not reached yet',
